@@ -42,16 +42,20 @@ impl Check for ControlCheck {
         }
     }
     fn gen_plan(&self, seed: u64, index: u64, _tier: Tier) -> Value {
-        let mut rng = Rng::new(seed, "plan");
         let c13 = self.prop == "C13";
+        let mut rng = Rng::new(seed, "plan");
         let level = index % 3; // 0 fault-free, 1 light, 2 heavy
-        let start_chunks = rng.range(1, 2) as usize;
-        let spare = rng.range(2, 4) as usize;
+        // C13, every fourth run: "stranded" variant — no spare proxy, so a failover leaves the failed proxy a
+        // cluster member (replica roles, marked failed); it heals WITHOUT being re-registered and the broker
+        // restarts from a snapshot afterwards: the property's "all reachable proxies" includes this one.
+        let stranded = c13 && (index / 8) % 3 == 1; // the composite hands this part every 8th index
+        let start_chunks = if stranded { 2 } else { rng.range(1, 2) as usize };
+        let spare = if stranded { 0 } else { rng.range(2, 4) as usize };
         let n_proxies = 2 * start_chunks + spare;
         let n_coord = *rng.pick(&[1usize, 1, 2]);
         let mut ops = vec![];
         // one scaling request so that migrations finish and must be committed
-        let scale_up = rng.chance(2, 3) || start_chunks == 1;
+        let scale_up = (rng.chance(2, 3) || start_chunks == 1) && !stranded;
         ops.push(json!({"at": rng.range(200, 4000), "op": "scale", "up": scale_up}));
         if level > 0 {
             let n = if level == 1 { rng.range(1, 2) } else { rng.range(2, 5) };
@@ -67,6 +71,12 @@ impl Check for ControlCheck {
                 };
                 ops.push(op);
             }
+        }
+        if stranded {
+            let at = rng.range(300, 3000);
+            let for_ms = *rng.pick(&[3000u64, 4000, 5000]);
+            ops.push(json!({"at": at, "op": "proxy_down", "p": rng.below((2 * start_chunks) as u64), "for_ms": for_ms, "no_reregister": true}));
+            ops.push(json!({"at": at + for_ms + rng.range(200, 1500), "op": "broker_restart", "age": rng.range(0, 3)}));
         }
         if c13 && !ops.iter().any(|o| o["op"] == "broker_restart") {
             ops.push(json!({"at": rng.range(500, FAULT_WINDOW_MS - 2000), "op": "broker_restart", "age": rng.range(0, 8)}));
@@ -92,6 +102,7 @@ impl Check for ControlCheck {
                 "compress_meta": rng.chance(1, 2),
                 "quorum": 1,
                 "level": level,
+                "stranded": stranded,
                 "chaos_pm": if level == 2 { *rng.pick(&[0u64, 20, 60]) } else { 0 },
                 "n_keys": rng.range(4, 24),
             },
@@ -199,10 +210,18 @@ fn merge_ranges(v: &BTreeSet<(usize, usize, String)>) -> BTreeSet<(usize, usize,
 
 /// What must hold once the control plane has converged. Returns the list of problems.
 pub async fn convergence_problems(net: &Net, holder: &Arc<BrokerHolder>, limit: u64) -> Vec<String> {
+    convergence_problems_ext(net, holder, limit, false).await.0
+}
+
+/// `failed_members`: also judge proxies that are marked failed but are still members of a cluster and
+/// reachable (C13: "all reachable proxies adopt the recovered view"; C07 exempts failed proxies).
+/// Second result: how many such proxies were judged.
+pub async fn convergence_problems_ext(net: &Net, holder: &Arc<BrokerHolder>, limit: u64, failed_members: bool) -> (Vec<String>, u64) {
+    let mut judged_failed_members = 0u64;
     let mut problems = vec![];
     let st: MetaStore = match holder.get().get_all_data().await {
         Ok(s) => s,
-        Err(e) => return vec![format!("broker unavailable: {:?}", e)],
+        Err(e) => return (vec![format!("broker unavailable: {:?}", e)], 0),
     };
     let mut cl = Client::new(net, 900);
     let mut addrs: Vec<String> = st.all_proxies.keys().cloned().collect();
@@ -210,8 +229,15 @@ pub async fn convergence_problems(net: &Net, holder: &Arc<BrokerHolder>, limit: 
     let down: BTreeSet<String> = net.inner.lock().down.clone();
     let still_migrating = st.clusters.values().any(|c| c.is_migrating());
     for a in addrs.iter() {
-        if st.failed_proxies.contains(a) || st.failures.contains_key(a) || down.contains(a) {
+        if st.failures.contains_key(a) || down.contains(a) {
             continue;
+        }
+        if st.failed_proxies.contains(a) {
+            let member = st.all_proxies.get(a).map(|p| p.cluster.is_some()).unwrap_or(false);
+            if !(failed_members && member) {
+                continue;
+            }
+            judged_failed_members += 1;
         }
         let want = match st.get_proxy_by_address(a, limit) {
             Some(p) => p,
@@ -320,7 +346,7 @@ pub async fn convergence_problems(net: &Net, holder: &Arc<BrokerHolder>, limit: 
         // reported separately: the property only demands that FINISHED migrations are committed
         problems.push("INFO-ONLY: a migration is still running".to_string());
     }
-    problems
+    (problems, judged_failed_members)
 }
 
 async fn run_control(prop: &'static str, plan: &Value, want_sample: bool) -> RunRecord {
@@ -333,6 +359,7 @@ async fn run_control(prop: &'static str, plan: &Value, want_sample: bool) -> Run
     let n_coord = cfg["n_coord"].as_u64().unwrap_or(1) as usize;
     let limit = cfg["migration_limit"].as_u64().unwrap_or(0);
     let compress = cfg["compress_meta"].as_bool().unwrap_or(false);
+    let stranded = cfg["stranded"].as_bool().unwrap_or(false);
     let net = Net::new(seed, cfg["max_latency_ms"].as_u64().unwrap_or(3));
     {
         let mut g = net.inner.lock();
@@ -408,11 +435,14 @@ async fn run_control(prop: &'static str, plan: &Value, want_sample: bool) -> Run
         later.retain(|(at, _, _)| *at > t);
         for (_, kind, idx) in due {
             match kind.as_str() {
-                "heal_proxy" => {
+                "heal_proxy" | "heal_proxy_noreg" => {
                     net.set_down(&proxy_addr(idx, 0), false);
-                    net.event("heal_proxy", 5, &proxy_addr(idx, 0));
+                    net.event(&kind, 5, &proxy_addr(idx, 0));
                     // the operator brings the proxy back: re-registration clears its failed mark
-                    let _ = holder.add_proxy(idx, 0).await;
+                    // (not in the stranded variant: the proxy is reachable again but stays marked failed)
+                    if kind == "heal_proxy" {
+                        let _ = holder.add_proxy(idx, 0).await;
+                    }
                 }
                 "restart_coord" => {
                     if coords[idx].is_none() {
@@ -455,7 +485,8 @@ async fn run_control(prop: &'static str, plan: &Value, want_sample: bool) -> Run
                         net.set_down(&proxy_addr(p, 0), true);
                         net.event("proxy_down", 5, &proxy_addr(p, 0));
                         rec.fault("proxy_unreachable");
-                        later.push(((t + o["for_ms"].as_u64().unwrap_or(1000)).min(FAULT_WINDOW_MS), "heal_proxy".to_string(), p));
+                        let hk = if o["no_reregister"].as_bool().unwrap_or(false) { "heal_proxy_noreg" } else { "heal_proxy" };
+                        later.push(((t + o["for_ms"].as_u64().unwrap_or(1000)).min(FAULT_WINDOW_MS), hk.to_string(), p));
                     }
                 }
                 "restart_proxy" => {
@@ -560,7 +591,8 @@ async fn run_control(prop: &'static str, plan: &Value, want_sample: bool) -> Run
             }
             // the operator re-registers every proxy the broker has marked failed or under report
             if let Ok(stc) = holder.get().get_all_data().await {
-                for h in 0..n_proxies {
+                let hs = if stranded { 0 } else { n_proxies };
+                for h in 0..hs {
                     let a = proxy_addr(h, 0);
                     if stc.failed_proxies.contains(&a) || stc.failures.contains_key(&a) {
                         let _ = holder.add_proxy(h, 0).await;
@@ -587,7 +619,8 @@ async fn run_control(prop: &'static str, plan: &Value, want_sample: bool) -> Run
     }
 
     // ---- liveness after the bound
-    let mut problems = convergence_problems(&net, &holder, limit).await;
+    let (mut problems, judged_failed_members) = convergence_problems_ext(&net, &holder, limit, prop == "C13").await;
+    rec.probe_n("failed_but_member_proxies_judged", judged_failed_members);
     if problems.iter().any(|p| p.starts_with("INFO-ONLY")) {
         rec.probe("migration_still_running_at_end");
         problems.retain(|p| !p.starts_with("INFO-ONLY"));
